@@ -39,7 +39,7 @@ CLAIMS = {
          "source on every run: repo_slices proves the source's slices gather the model's border for every shape, repo_mask_rule / "
          "repo_masks_honoured that a pixel masked either way is masked when the border is gathered (the two other guards the code "
          "has had are proved to violate this, with witnesses replayed on the implementation)."),
-   note=NOTE + "C17: np.ma.median / astropy biweight_scale abstracted as arbitrary functions of the gathered values; photutils outside the model.",
+   note=NOTE + "C17: np.ma.median / astropy biweight_scale abstracted as arbitrary functions of the gathered values; photutils outside the model. Genuine defect found and fixed (0a4d9b4: mask argument dropped for masked-array images that carry masked pixels).",
    technique="Lean 4 theorems over list/slice model (all shapes, masks, statistics) + gathered-set correspondence with the real estimate_sky",
    design="7/C17"),
  "C18": dict(
@@ -142,7 +142,7 @@ CLAIMS = {
          "own bands against an independent float64 integration): how close Σ_k A_k(n) is to 1 (scanned densely on the real table, float32 and float64), "
          "footprint truncation of the hybrid renderer's real-space components, Gauss–Legendre accuracy of the pixel renderer. Tie: shared render "
          "correspondence with un-normalised PSFs + amplitude-table rows vs the Lean direct-decomposition model."),
-   note=NOTE + "C01: two narrow known findings recorded (pixel renderer: sub-pixel minor axis reaching outside the oversampled box; hybrid: 3.5<n<=4 truncated by a near edge exceeds the tight band slightly).",
+   note=NOTE + "C01: two narrow known findings recorded (pixel renderer: sub-pixel minor axis reaching outside the oversampled box; hybrid: 3.5<n<=4 with an edge within 15 r_eff exceeds the tight band slightly).",
    technique="Lean 4 theorems (DFT DC theorem via roots of unity, scene totals, reduction of the Fourier flux clause to 1-D, Gamma-integral normalisation) + render/table correspondence + numerical residual with the property's bands",
    design="7/C01"),
  "C20": dict(
@@ -159,7 +159,7 @@ CLAIMS = {
          "Tie: render correspondence over the whole option space, including the Lean model of the direct decomposition (use_interp_amps=False); "
          "the index arithmetic that places the oversampled box is regenerated from PixelRenderer.__init__ (int / round-half-even / // with "
          "their Python meaning) and proved to be the model's box for every image side (repo_pixel_box)."),
-   note=NOTE + "C20: leggauss data enter as parameters (Σw = 1 checked on the real data); direct amplitudes compared in float64 only.",
+   note=NOTE + "C20: leggauss data enter as parameters (Σw = 1 checked on the real data); direct amplitudes compared in float64 only. Known finding recorded (num_os = 3: a box pixel next to the source exceeds 2e-5 by a hair).",
    technique="Lean 4 theorems (box membership by omega, class of each pixel, list partition of the hybrid split, hybrid(0)=Fourier, σ-grid end points) + option-space render correspondence + numerical oracle with the property's tolerances",
    design="7/C20"),
  "C16": dict(
@@ -259,7 +259,7 @@ CLAIMS = {
          "observed 0.489…0.497 within 0.50 ± 0.02) and every moment-based clause on discretised PSF-convolved images — observed with the property's "
          "tolerances against an independent float64 reference renderer (exact b_n, pixel integration with recursive cusp refinement, spatial convolution), "
          "plus absolute checks of centre and angle. Tie: render correspondence on elongated sources."),
-   note=NOTE + "C02: photutils-derived guesses belong to C12; moments are Gaussian-weighted with adaptive centre.",
+   note=NOTE + "C02: moments are Gaussian-weighted with adaptive centre; the automatic theta / position guesses are compared with the rendered convention on dedicated scenes. Known findings recorded (ellip >= 0.75 with n >= 3.5, Fourier/hybrid: axis ratio up to +6.8% against 5%, squared size 8.1% against 8%).",
    technique="Lean 4 theorems (trigonometric identities on the elliptical radius, monotonicity via rpow/exp, broadening algebra) + render correspondence + moment oracle vs independent reference renderer",
    design="7/C02"),
  "C04": dict(
@@ -271,7 +271,7 @@ CLAIMS = {
          "independent float64 reference (12 %/10 %, 18 %/15 %, 2 %/2 %), hybrid vs Fourier 6e-3 for Gaussian PSFs near the image centre, amplitude table vs "
          "direct decomposition at the tabulated indices 1e-3 (measured 2e-14, float64). Tie: render correspondence + the Lean model of the Shajib "
          "decomposition vs the real sersic_gauss_decomp at random (n, r_eff, flux)."),
-   note=NOTE + "C04: interpax interpolation enters as data; the reference renderer is independent of both the code and the Lean model.",
+   note=NOTE + "C04: interpax interpolation enters as data; the reference renderer is independent of both the code and the Lean model. Known finding recorded (pixel renderer: sub-pixel minor axis reaching outside the oversampled box, the C01 design limit seen through the image comparison).",
    technique="Lean 4 theorems (factorisation of both profiles through the same elliptical radius; reduction to an (n, z) surface) + render/decomposition correspondence + numerical residual vs independent reference",
    design="7/C04"),
  "C10": dict(
